@@ -321,6 +321,13 @@ def make(I):
     def is_array(I, v):
         return isinstance(v, Arr)
 
+    def shares_memory(I, a, b):
+        """do the two arrays share their buffer: one is the other, or a basic-slicing view of it (what np.shares_memory reports for views)"""
+        if not isinstance(a, Arr) or not isinstance(b, Arr):
+            return False
+        ra, rb = (a.base or a), (b.base or b)
+        return ra is rb
+
     def rope_fmt(I, value, prec, kind='f'):
         if prec is not None and (isinstance(prec, bool) or not isinstance(prec, int)):
             I.throw('TypeError', 'precision must be an integer')
@@ -351,7 +358,7 @@ def make(I):
               fact=F('fact', fact), assume=F('assume', assume), implies=F('implies', implies), ite=F('ite', ite),
               oblige=F('oblige', oblige), model_limit=F('model_limit', model_limit), event=F('event', event), is_symbolic=F('is_symbolic', is_symbolic),
               unsupported=F('unsupported', unsupported), uf_real=F('uf_real', uf_real), uf=F('uf', uf), split_first_line=F('split_first_line', split_first_line), uf_text=F('uf_text', uf_text), stub=F('stub', stub), is_text=F('is_text', is_text), use_lemma=F('use_lemma', use_lemma), uf_application_args=F('uf_application_args', uf_application_args), text_isascii=F('text_isascii', text_isascii), exact_number_text=F('exact_number_text', exact_number_text), piece_value=F('piece_value', piece_value), text_equal=F('text_equal', text_equal), abstract_path_vertices=F('abstract_path_vertices', abstract_path_vertices), abstract_path_codes=F('abstract_path_codes', abstract_path_codes), abstract_outline_vertices=F('abstract_outline_vertices', abstract_outline_vertices), abstract_outline_codes=F('abstract_outline_codes', abstract_outline_codes), is_selection=F('is_selection', is_selection), selection_parts=F('selection_parts', selection_parts), is_nonfinite=F('is_nonfinite', is_nonfinite), lemma=F('lemma', lemma), general=F('general', general), arr_like=F('arr_like', arr_like), is_bool_scalar=F('is_bool_scalar', is_bool_scalar), is_bool_array=F('is_bool_array', is_bool_array), dtype_of=F('dtype_of', dtype_of), uf_bool=F('uf_bool', uf_bool),
-              arr_from_fn=F('arr_from_fn', arr_from_fn), arr_at=F('arr_at', arr_at), witness=F('witness', witness), is_array=F('is_array', is_array),
+              arr_from_fn=F('arr_from_fn', arr_from_fn), arr_at=F('arr_at', arr_at), witness=F('witness', witness), is_array=F('is_array', is_array), shares_memory=F('shares_memory', shares_memory),
               cos=F('cos', N.np_cos), sin=F('sin', N.np_sin), sqrt=F('sqrt', lambda I, x: B.sqrt_(I, x)), PI=N.PI,
               deepcopy=F('deepcopy', lambda I, v: I.ext_modules and __import__('pyvc.stdlib_models', fromlist=['x']).deepcopy(I, v)),
               rope_fmt=F('rope_fmt', rope_fmt), ghost=F('ghost', ghost), fs_initially=F('fs_initially', fs_initially), shape_of=F('shape_of', shape_of),
